@@ -323,7 +323,7 @@ PROPS = {
         "level": "exploration",
         "jobs": c16_jobs,
         "exhaustive": lambda tier: True,
-        "rule": "differential execution against std models (VecDeque, BTreeMap slab, BTreeMap, Vec, Vec<u8>) after every operation with an element life table, for queue (heap/fixed, capacity 0-3), slot map (heap/fixed, 1-3), flat map (heap/fixed, 1-3), vector (static/polymorphic-heap, 0-3), static string (1-4): ALL operation sequences up to length 5 (quick) / 6 (thorough) over the per-container alphabet (bounded to 5 for vectors and 4 for the 19-letter string alphabet), plus random sequences of length up to 40; release build for the enumeration, debug/ASan for shorter boxes, Miri for length <= 2 plus random short ones. Non-trivial = a history of maximal enumerated length or a random one; distinct = distinct (target, history). exhaustive=true refers to exactly this (length, alphabet, capacity) box.",
+        "rule": "differential execution against std models (VecDeque, BTreeMap slab, BTreeMap, Vec, Vec<u8>) after every operation with an element life table, for queue (heap/fixed, capacity 0-3), slot map (heap/fixed, capacity 1-4 and 6 with the full key domain incl. key == capacity), flat map (heap/fixed, 1-3), vector (static/polymorphic-heap, 0-3), static string (1-4), RelocatableOption (replace, take, take_if, as_mut, map, unwrap_or): ALL operation sequences up to length 5 (quick) / 6 (thorough) over the per-container alphabet (bounded to 5 for vectors and 4 for the 19-letter string alphabet), plus random sequences of length up to 40; release build for the enumeration, debug/ASan for shorter boxes, Miri for length <= 2 plus random short ones. Non-trivial = a history of maximal enumerated length or a random one; distinct = distinct (target, history). exhaustive=true refers to exactly this (length, alphabet, capacity) box.",
         "assumptions": ["std containers are the reference semantics, capacity errors must leave the container unchanged", "String::retain removes the bytes for which the closure returns true (upstream test retain_works), the doc line of String::retain says the opposite"],
         "floor": (100000, 20),
     },
